@@ -411,6 +411,28 @@ def get_netcdf_encoding(
     return encoding
 
 
+def splice_loss_covariance(p_cov, ix_a, acts_a, ix_b=None, acts_b=None):
+    """Covariance between two summed splice losses at every location and time.
+
+    The integrated loss at a location is the sum of the losses of the splices that
+    act on it, so its (co)variance is the sum over all pairs of acting splices.
+
+    Parameters
+    ----------
+    p_cov : array (npar, npar)
+    ix_a, ix_b : int arrays (nt, nta) with the parameter indices of the losses
+    acts_a, acts_b : bool arrays (nx, nta), True where the splice acts on the location
+
+    Returns:
+    --------
+    array (nx, nt)
+    """
+    if ix_b is None:
+        ix_b, acts_b = ix_a, acts_a
+    cov = np.asarray(p_cov)[ix_a[:, :, None], ix_b[:, None, :]]
+    return np.einsum("xi,tij,xj->xt", acts_a.astype(float), cov, acts_b.astype(float))
+
+
 def get_params_from_pval_double_ended(ip, coords, p_val=None, p_cov=None):
     if p_val is not None:
         assert len(p_val) == ip.npar, "Length of p_val is incorrect"
@@ -575,7 +597,25 @@ def get_params_from_pval_double_ended(ip, coords, p_val=None, p_cov=None):
                 axis="time",
             ),
         )
-        # sigma2_tafw_tabw
+        # variances and covariance of the integrated losses, including the
+        # covariances between the losses of different splices
+        x_ta = params["x"].values[:, None]
+        acts_fw = x_ta >= params["trans_att"].values[None]
+        acts_bw = x_ta < params["trans_att"].values[None]
+        ix_taf = np.reshape(ip.taf, (ip.nt, ip.nta)).astype(int)
+        ix_tab = np.reshape(ip.tab, (ip.nt, ip.nta)).astype(int)
+        params["talpha_fw_full"] = (
+            ("x", "time"),
+            splice_loss_covariance(p_cov, ix_taf, acts_fw),
+        )
+        params["talpha_bw_full"] = (
+            ("x", "time"),
+            splice_loss_covariance(p_cov, ix_tab, acts_bw),
+        )
+        params["tafw_tabw"] = (
+            ("x", "time"),
+            splice_loss_covariance(p_cov, ix_taf, acts_fw, ix_tab, acts_bw),
+        )
     return params
 
 
@@ -647,11 +687,10 @@ def get_params_from_pval_single_ended(
     )
     param_covs["talpha_fw_full"] = (
         ("x", "time"),
-        ip.get_taf_values(
-            pval=p_var,
-            x=params["x"].values,
-            trans_att=params["trans_att"].values,
-            axis="",
+        splice_loss_covariance(
+            p_cov,
+            np.reshape(ip.taf, (ip.nt, ip.nta)).astype(int),
+            params["x"].values[:, None] >= params["trans_att"].values[None],
         ),
     )
     param_covs["gamma_c"] = (("time",), p_cov[np.ix_(ip.gamma, ip.c)][0, :])
